@@ -357,10 +357,98 @@ def check_step(ck, rng, spec, cfg, case_key):
             ck.mark("system/second_step_after_inplace_weight_update")
 
 
+class _Record(nn.Module):
+    """Solver spy for the two dedicated monitors below: keeps (A, b) and forwards to the real solver."""
+
+    def __init__(self, inner):
+        super().__init__()
+        self.inner, self.seen = inner, []
+
+    def forward(self, A, b):
+        self.seen.append((A.detach().clone(), b.detach().clone()))
+        return self.inner(A, b)
+
+
+class _Affine(nn.Module):
+    """r(theta) = M (theta - c): a linear least-squares problem whose Jacobian is M exactly."""
+
+    def __init__(self, M, c, theta0):
+        super().__init__()
+        self.M, self.c = M, c
+        self.theta = nn.Parameter(theta0.clone())
+
+    def forward(self, input=None):
+        return self.M @ (self.theta - self.c)
+
+
+def ill_conditioned_gn(ck, rng):
+    """GN with its default solver on float64 problems with a weakly observable direction (cond 1e5..1e8): the step is the least-squares
+    step to the forward accuracy a float64 solve has (kappa u), i.e. the weak direction is solved too, not truncated away."""
+    u = 2.0 ** -52
+    for case in range(6):
+        n = int(rng.integers(2, 6))
+        m = n + int(rng.integers(0, 3))
+        kappa = float(10.0 ** rng.uniform(5, 8))
+        Uq, _ = np.linalg.qr(rng.standard_normal((m, n)))
+        Vq, _ = np.linalg.qr(rng.standard_normal((n, n)))
+        sv = np.geomspace(1.0, 1.0 / kappa, n)
+        M = torch.as_tensor(Uq @ np.diag(sv) @ Vq.T)
+        c = torch.as_tensor(rng.standard_normal(n))
+        th0 = c + torch.as_tensor(rng.standard_normal(n))
+        for how in ("default-solver", "PINV()"):
+            model = _Affine(M, c, th0)
+            opt = pp.optim.GN(model) if how == "default-solver" else pp.optim.GN(model, solver=pp.optim.solver.PINV())
+            regime = f"GN/{how}/cond~1e{int(np.log10(kappa))}"
+            wit = {"cond": kappa, "n": n, "m": m, "solver": how}
+            okc, _ = ck.call("solve", regime, "optim.GaussNewton.step", lambda: opt.step(None), witness=wit)
+            ck.count("solve", regime, key=(case, how, M.numpy().tobytes()))
+            if not okc:
+                continue
+            # exact minimiser: theta = c (M has full column rank); forward error of a float64 least-squares solve ~ kappa u |step|
+            err = float((model.theta.detach() - c).abs().max())
+            ck.ratio("solve", regime, err, 64 * u * kappa * float((th0 - c).abs().max()) + 1e-300, "optim.GaussNewton.step",
+                     "step_misses_the_least_squares_solution_in_a_weakly_observable_direction",
+                     dict(wit, theta_after=model.theta.detach().tolist(), minimiser=c.tolist(), start=th0.tolist()))
+            ck.mark("solve/ill-conditioned-float64")
+
+
+def clamp_floor(ck, rng):
+    """LM's lower clamp of the Hessian diagonal is the user's `min`, in both dtypes: r = (theta0 - 1, s (theta1 - 1)) has the diagonal
+    (1, s^2); with s^2 < min the second entry handed to the solver in trial k is min (1 + lambda)^k."""
+    for dn, dtype in (("f64", torch.float64), ("f32", torch.float32)):
+        for mn in (1e-6, 1e-9, 1e-12):
+            for s in (1e-2, 1e-4, 1e-7):
+                lam = float(rng.choice([1e-3, 0.5]))
+                M = torch.diag(torch.tensor([1.0, s], dtype=dtype))
+                model = _Affine(M, torch.ones(2, dtype=dtype), torch.tensor([0.5, 0.25], dtype=dtype))
+                rec = _Record(pp.optim.solver.PINV())
+                opt = pp.optim.LM(model, solver=rec, strategy=pp.optim.strategy.Constant(damping=lam), min=mn, max=1e32)
+                regime = f"LM/{dn}/min={mn:g}/s={s:g}"
+                wit = {"dtype": dn, "min": mn, "s": s, "damping": lam}
+                okc, _ = ck.call("system", regime, "optim.LevenbergMarquardt.step", lambda: opt.step(None), witness=wit)
+                ck.count("system", regime, key=(dn, mn, s, lam))
+                if not okc or not rec.seen:
+                    continue
+                d0 = max(float(torch.tensor(s, dtype=dtype) ** 2), float(torch.tensor(mn, dtype=dtype)))
+                for k_, (A, b) in enumerate(rec.seen):
+                    want = d0 * (1 + lam) ** (k_ + 1)
+                    got = float(A[1, 1])
+                    ck.ratio("system", regime, abs(got - want), 1e-4 * want, "optim.LevenbergMarquardt.step",
+                             "clamped_diagonal_entry_is_not_min_times_damping" if s * s < mn else "diagonal_entry_not_as_documented",
+                             dict(wit, trial=k_ + 1, got=got, want=want))
+                if s * s < mn:
+                    ck.mark(f"clamp/floor-binds/{dn}")
+    ck.require("clamp/floor-binds/f32", "clamp/floor-binds/f64")
+
+
 def run(ck):
     rng = ck.rng("c07")
     thorough = ck.tier == "thorough"
     n = 1000 if thorough else 40
+    if ck.shard == 0:
+        ill_conditioned_gn(ck, ck.rng("ill"))
+        clamp_floor(ck, ck.rng("floor"))
+        ck.require("solve/ill-conditioned-float64")
     templates = ["pose_log", "points", "alg_log", "mixed_so3_offset", "two_outputs", "three_params", "program", "frozen", "alias_output"]
     for i in range(n):
         which = templates[(i + ck.shard) % len(templates)]
